@@ -333,8 +333,9 @@ fn exec_huge(_cx: &mut Ctx, _c: &HugeCase) {}
 #[cfg(not(miri))]
 fn exec_huge(cx: &mut Ctx, c: &HugeCase) {
     let id = c.id;
-    let sigp = format!("C17|{}|{}", id.name(), api::profile());
-    let pattern: Vec<u8> = (0..(2usize << 20)).map(|i| (i as u32).wrapping_mul(2654435761).rotate_right(9) as u8 ^ (i >> 13) as u8).collect();
+    let sigp = format!("{}|{}|{}", cx.prop, id.name(), api::profile());
+    // 513 pages: the period does not divide 2^32, so the bytes beyond 4 GiB differ from those at the start
+    let pattern: Vec<u8> = (0..(2usize << 20) + 4096).map(|i| (i as u32).wrapping_mul(2654435761).rotate_right(9) as u8 ^ (i >> 13) as u8).collect();
     let win = match crate::guard::RingWindow::new(&pattern, c.total as usize) {
         Ok(w) => w,
         Err(e) => {
@@ -406,6 +407,22 @@ fn exec_huge(cx: &mut Ctx, c: &HugeCase) {
             cx.log.violation(&format!("{}|huge-update-digest", sigp), &format!("digest of {} bytes absorbed by one update() is {} reference {}", c.total, hex(&dig), hex(&e)));
         }
     }
+}
+
+/// "For every byte string": the digest monitors (C04-C07) pass their own family one message of
+/// more than 2^32 bytes (2^32 bits for BLAKE-256) in a single call; `huge=1` selects the worker.
+pub fn run_family_huge(cx: &mut Ctx, fam: Fam) {
+    let g4 = 1u64 << 32;
+    let c = match fam {
+        Fam::Blake => HugeCase { id: h(Fam::Blake, 256), total: (1 << 29) + 4096 + 67, chunked: true, refd: true },
+        Fam::Skein => HugeCase { id: h(Fam::Skein, 512), total: g4 + 4096 + 64, chunked: true, refd: false },
+        Fam::Jh => HugeCase { id: h(Fam::Jh, 256), total: g4 + 4096 + 65, chunked: true, refd: false },
+        Fam::Groestl => HugeCase { id: h(Fam::Groestl, 256), total: g4 + 4096 + 100, chunked: true, refd: false },
+    };
+    cx.log.announce(&c.desc());
+    cx.log.nontrivial();
+    cx.log.class(&format!("single-update-{}/{}", if c.total >= g4 { "over-4GiB" } else { "across-first-counter-word" }, c.id.name()));
+    exec_huge(cx, &c);
 }
 
 fn huge_menu(thorough: bool) -> Vec<HugeCase> {
